@@ -237,6 +237,56 @@ def run(ctx):
                     ctx.violation(dict(kind='damaged-input', source=os.path.basename(src), where='size field of the %s packet header' % which, corruption='size=' + vk, problem=bad, file=keep,
                                        wall_s=r['wall'], limit_s=limit, how='python tools/c15_worker.py <file>  (ReplayParser(file, strict=False).get_info() in a fresh interpreter)'))
                     break
+        # the value bytes of EVERY property update and method call replaced by 0xff bytes (count / length escapes with nothing behind them): each packet
+        # fails or decodes to something tiny; a few kB of input stay a matter of milliseconds and megabytes
+        for src in (syn, syn2, syn3, syn4):
+            ext = src.rsplit('.', 1)[-1]
+            try: raw = fast_source(src)
+            except Exception: continue
+            base = run_worker(src, 120)
+            for k in (4, 3, 8):
+                frames = []; off = 0; st = raw[1]
+                while off + 12 <= len(st):
+                    size, ptype, tb = struct.unpack_from('<III', st, off)
+                    if off + 12 + size > len(st): break
+                    pl = st[off + 12:off + 12 + size]
+                    if ptype in (0x7, 0x8) and len(pl) >= 12: pl = pl[:8] + struct.pack('<I', k) + b'\xff' * k
+                    frames.append(struct.pack('<III', len(pl), ptype, tb) + pl); off += 12 + size
+                p = os.path.join(tmp, 'ffvals.' + ext); fast_write(p, ext, raw[0], b''.join(frames) + st[off:])
+                r = run_worker(p, max(8.0, base['wall'] * 10 + 3))
+                ctx.case(('ff-values', os.path.basename(src), k)); ctx.count('where:all-values-0xff')
+                bad = None
+                if r['outcome'].startswith(('HANG', 'CRASH')): bad = r['outcome']
+                elif r['outcome'] in ('exception MemoryError', 'exception RecursionError'): bad = r['outcome']
+                elif r['maxrss_kb'] > max(base['maxrss_kb'] * 3, 150000): bad = 'peak resident size %d kB (undamaged: %d kB)' % (r['maxrss_kb'], base['maxrss_kb'])
+                elif not r['outcome'].startswith('result'): bad = 'container intact but lenient mode raised: ' + r['outcome']
+                if bad:
+                    keep = os.path.join(common.VERIF, 'evidence', 'replays', 'C15-damaged-%d.%s' % (len(ctx.violations) + 1, ext)); shutil.copy(p, keep)
+                    ctx.violation(dict(kind='damaged-input', source=os.path.basename(src), where='the value bytes of every property update and method call', corruption='%d x 0xff' % k, problem=bad, file=keep,
+                                       wall_s=r['wall'], how='python tools/c15_worker.py <file>  (ReplayParser(file, strict=False).get_info() in a fresh interpreter)'))
+                    break
+        # ... and every ARRAY-typed client property of the ships, the recording player and the battle logic of a synthetic battle updated with a
+        # value that is nothing but 0xff bytes (what is left of a value when its length escape survives and the rest is cut off)
+        for v_ in ('13_2_0', [x for x in wv if x.startswith('0_9_')][0]):
+            b_, vs_ = battle.build_wows(v_, random.Random(3))
+            for ename, eid in (('Avatar', 900), ('Vehicle', 500), ('Vehicle', 501), ('BattleLogic', 10)):
+                for i, (pn, pt) in enumerate(b_.md.ent[ename]['client']):
+                    tt = pt
+                    while tt[0] == 'user': tt = tt[1]
+                    if tt[0] == 'array':
+                        for k in (4, 3): b_.pkt('EntityProperty', struct.pack('<II', eid, i) + struct.pack('<I', k) + b'\xff' * k)
+            p = os.path.join(tmp, 'ffarrays.wowsreplay'); fast_write(p, 'wowsreplay', json.dumps({'clientVersionFromXml': vs_}).encode(), b_.stream())
+            r = run_worker(p, 10.0)
+            ctx.case(('ff-arrays', v_)); ctx.count('where:array-values-0xff')
+            bad = None
+            if r['outcome'].startswith(('HANG', 'CRASH')): bad = r['outcome']
+            elif r['outcome'] in ('exception MemoryError', 'exception RecursionError'): bad = r['outcome']
+            elif r['maxrss_kb'] > 150000: bad = 'peak resident size %d kB for a synthetic battle of %d bytes' % (r['maxrss_kb'], os.path.getsize(p))
+            elif not r['outcome'].startswith('result'): bad = 'container intact but lenient mode raised: ' + r['outcome']
+            if bad:
+                keep = os.path.join(common.VERIF, 'evidence', 'replays', 'C15-damaged-%d.wowsreplay' % (len(ctx.violations) + 1)); shutil.copy(p, keep)
+                ctx.violation(dict(kind='damaged-input', source='synthetic battle ' + v_, where='ARRAY-typed client properties', corruption='updates whose value is 3 or 4 bytes of 0xff', problem=bad, file=keep,
+                                   wall_s=r['wall'], how='python tools/c15_worker.py <file>  (ReplayParser(file, strict=False).get_info() in a fresh interpreter)'))
         # container-level: the BLOCK COUNT tampered to a huge value while the file ends (or only empty blocks follow) behind the first block -
         # two damages that only together keep every single read "successful"; time and memory must stay proportional to the ~150 bytes
         data = open(syn, 'rb').read(); size0 = struct.unpack_from('<i', data, 8)[0]; first = data[:12 + size0]
